@@ -19,7 +19,7 @@ LEVEL_TEXT = ("Proof (Coq): for ALL degrees, sorted knot vectors with any multip
               "evaluate_single, evaluate_list, evalpts, derivatives order 0; BSpline and NURBS; curve, surface, volume) by the correspondence check "
               "evaluated inside Coq on every run, and an exact Fraction oracle of the definition searches for failing inputs.")
 # functions of the numerical core this property rests on that are also tied by the translator (tie theorems: Props/C03.v, Proofs/GenTie*.v)
-TRANSLATED = ["helpers.find_span_linear", "helpers.find_spans", "helpers.basis_function", "helpers.basis_functions", "linalg.linspace"]
+TRANSLATED = ["helpers.find_span_linear", "helpers.find_spans", "helpers.basis_function", "helpers.basis_functions", "linalg.linspace", "evaluators.CurveEvaluator.evaluate", "evaluators.CurveEvaluatorRational.evaluate", "evaluators.SurfaceEvaluator.evaluate", "evaluators.SurfaceEvaluatorRational.evaluate", "evaluators.VolumeEvaluator.evaluate", "evaluators.VolumeEvaluatorRational.evaluate"]
 TECHNIQUE = "Coq proof (induction over degree, Cox-de Boor recursion) on a Gallina model + vm_compute correspondence with the implementation"
 THEOREM_NOTES = "coq/Props/C01.v"
 
